@@ -158,6 +158,17 @@ class Scenario:
         elif opt:
             for dd in data:
                 dd["opt"] = dd["tag"] * 10
+        # a heartbeat: one sample without any field (`write(k, {})`, or `{}` in a list of dicts).  It is a stored
+        # sample like any other: inside the bounds, returned (empty) by every read, the latest one if it is the newest
+        hb = bool(self.spec) and not dup and len(ks) == 1 and rng.random() < 0.12
+        if hb:
+            opt = False
+            form = rng.choice(["hb-dict", "hb-list"])
+            data = {} if form == "hb-dict" else [{}]
+            if not hasattr(self, "hb"):
+                self.hb = set()
+            if ks[0] not in self.spec:
+                self.hb.add(ks[0])
         self.log.append(["mdwrite", ks, tags, form, opt])
         try:
             self.mdw.write(ks, data)
@@ -177,6 +188,8 @@ class Scenario:
         self.iobs += [0, ok]
         self.res.case(("mdwrite", self.n, self.d, self.fc, tuple(ks)))
         self.res.count("op:md-write" + (":duplicate" if dup else ":back-fill" if back else ""))
+        if hb:
+            self.res.count("op:md-write:heartbeat-sample-without-fields")
         if ok != exp_ok:
             self.res.violation("write-status-wrong", "metadata write accepted a duplicate / refused new indices",
                                self.replay_input("write"), exp_ok, ok)
@@ -188,6 +201,15 @@ class Scenario:
                 self.query(r, 0, 0, 0, after_write=True)
                 self.query(r, 1, ks[-1], ks[-1], after_write=True)
                 self.query(r, 3, 0, 0, after_write=True)
+
+    def tag_of(self, k, v):
+        """the tag a returned sample carries; a heartbeat sample has no field at all: it stands for the tag the
+        history gave it, provided it came back empty"""
+        if "tag" in v:
+            return int(v["tag"])
+        if int(k) in getattr(self, "hb", ()) and len(v) == 0:
+            return self.spec[int(k)]
+        return -2
 
     def rf_write(self):
         rng = self.res.rng
@@ -234,7 +256,7 @@ class Scenario:
                 self.mops += [4, r]
             out, err = self.ro(name, call)
             if err is None:
-                got = [0, len(out)] + [x for k, v in out.items() for x in (int(k), int(v["tag"]))]
+                got = [0, len(out)] + [x for k, v in out.items() for x in (int(k), self.tag_of(k, v))]
             elif isinstance(err, ValueError):
                 got = [1, 0]
             elif isinstance(err, IOError):
@@ -488,12 +510,18 @@ def replay(res, rp):
     os.makedirs(md)
     w = digital_rf.DigitalMetadataWriter(md, i["sc"], i["fc"], i["n"], i["d"], PREFIX)
     readers, spec, bad = [], {}, False
+    hbs = set()
     for op in i["ops"]:
         if op[0] == "mdwrite":
             ks, tags = op[1], op[2]
             try:
-                w.write(ks, [dict({"tag": t, "x": float(t) / 2}, **({"opt": t * 10} if len(op) > 4 and op[4] else {}))
-                             for t in tags])
+                if str(op[3]).startswith("hb"):
+                    print("heartbeat sample (no fields) at", ks)
+                    w.write(ks, {} if op[3] == "hb-dict" else [{}])
+                    hbs.update(k for k in ks if k not in spec)
+                else:
+                    w.write(ks, [dict({"tag": t, "x": float(t) / 2}, **({"opt": t * 10} if len(op) > 4 and op[4] else {}))
+                                 for t in tags])
             except IOError:
                 pass
             for kk, t in zip(ks, tags):
@@ -538,7 +566,8 @@ def replay(res, rp):
                     got = [0, 1, int(o[0]), int(o[1])]
                 else:
                     o = rd.read(a, b) if kind == 1 else (rd.read(a, b, method="ffill") if kind == 2 else rd.read_latest())
-                    got = [0, len(o)] + [x for k, v in o.items() for x in (int(k), int(v["tag"]))]
+                    got = [0, len(o)] + [x for k, v in o.items() for x in
+                                         (int(k), int(v["tag"]) if "tag" in v else (spec[int(k)] if int(k) in hbs and not len(v) else -2))]
             except ValueError:
                 got = [1, 0]
             except IOError:
